@@ -18,6 +18,7 @@ import (
 
 	"golang.org/x/mod/sumdb/note"
 
+	"verif/internal/coop"
 	"verif/internal/enum"
 	"verif/internal/fw"
 )
@@ -801,6 +802,7 @@ func Run(r *fw.Run) {
 
 	// (b2) key strings: the key hash binds name and key; altered key strings are refused
 	keyBinding(r)
+	overlapPart(r, nil)
 
 	// (c) mutations of signed messages
 	type signed struct {
@@ -901,10 +903,162 @@ func Run(r *fw.Run) {
 	r.Sample(caseT{Kind: "mutation", Text: strconv.QuoteToASCII("a\n\n" + good1 + "\n"), Verifiers: []string{"k1"}, Mutation: "flip-low@0"})
 }
 
+// ---------------------------------------------------------------- overlapping calls
+
+type yieldVerifiers struct {
+	inner note.Verifiers
+	yield func()
+}
+
+type yieldVerifier struct {
+	note.Verifier
+	yield func()
+}
+
+func (y yieldVerifier) Verify(msg, sig []byte) bool {
+	m0, s0 := string(msg), string(sig)
+	y.yield()
+	ok := y.Verifier.Verify(msg, sig)
+	y.yield()
+	if string(msg) != m0 || string(sig) != s0 {
+		panic("the message or signature handed to Verify changed while Verify was running")
+	}
+	return ok
+}
+
+func (y yieldVerifiers) Verifier(name string, hash uint32) (note.Verifier, error) {
+	y.yield()
+	v, err := y.inner.Verifier(name, hash)
+	if err != nil {
+		return nil, err
+	}
+	return yieldVerifier{v, y.yield}, nil
+}
+
+type yieldSigner struct {
+	note.Signer
+	yield func()
+}
+
+func (y yieldSigner) Sign(msg []byte) ([]byte, error) {
+	m0 := string(msg)
+	y.yield()
+	sig, err := y.Signer.Sign(msg)
+	y.yield()
+	if string(msg) != m0 {
+		panic("the text handed to Sign changed while Sign was running")
+	}
+	return sig, err
+}
+
+// overlapMenu returns named calls of Open and Sign; each takes the yield function handed to its callbacks.
+func overlapMenu() (names []string, calls []func(yield func()) string) {
+	ks := theKeys()
+	sign := func(text string, ids ...string) []byte {
+		var ss []note.Signer
+		for _, id := range ids {
+			ss = append(ss, ks[id].signer)
+		}
+		m, err := note.Sign(&note.Note{Text: text}, ss...)
+		if err != nil {
+			panic(err)
+		}
+		return m
+	}
+	vlist := func(ids ...string) note.Verifiers {
+		var vs []note.Verifier
+		for _, id := range ids {
+			vs = append(vs, ks[id].ver)
+		}
+		return note.VerifierList(vs...)
+	}
+	addOpen := func(name string, msg []byte, vids ...string) {
+		names = append(names, name)
+		calls = append(calls, func(y func()) string {
+			n, err := note.Open(append([]byte(nil), msg...), yieldVerifiers{vlist(vids...), y})
+			if err != nil {
+				return "err=" + err.Error()
+			}
+			return fmt.Sprintf("text=%q sigs=%v unverified=%v", n.Text, sigList(n.Sigs), sigList(n.UnverifiedSigs))
+		})
+	}
+	addSign := func(name, text string, sids ...string) {
+		names = append(names, name)
+		calls = append(calls, func(y func()) string {
+			var ss []note.Signer
+			for _, id := range sids {
+				ss = append(ss, yieldSigner{ks[id].signer, y})
+			}
+			n := &note.Note{Text: text}
+			m, err := note.Sign(n, ss...)
+			return fmt.Sprintf("%q err=%v text-after=%q sigs-after=%d", m, err, n.Text, len(n.Sigs))
+		})
+	}
+	m1 := sign("hello\n", "k1")
+	m2 := sign("a longer text\nof two lines\n", "k1", "k2")
+	m3 := sign("hello\n", "bad")
+	m4 := sign("other\n", "k2")
+	long := sign(strings.Repeat("line of text\n", 300), "k2", "k1")
+	addOpen("open-k1", m1, "k1")
+	addOpen("open-k1k2", m2, "k1", "k2")
+	addOpen("open-k1k2-knows-k2", m2, "k2")
+	addOpen("open-bad-signature", m3, "k1")
+	addOpen("open-unknown-key", m4, "k1")
+	addOpen("open-long", long, "k1", "k2")
+	addOpen("open-malformed", []byte("hello\n\n— k1.example no-base64!\n"), "k1")
+	addSign("sign-k1", "hello\n", "k1")
+	addSign("sign-k2k1", "another text\n", "k2", "k1")
+	addSign("sign-long", strings.Repeat("line of text\n", 300), "k1")
+	return
+}
+
+// overlapPart explores every interleaving (at verifier lookups, Verify and Sign callbacks) of every ordered
+// pair of calls and compares each result with the call run alone. only (replay) restricts to one pair.
+func overlapPart(r *fw.Run, only *caseT) {
+	names, calls := overlapMenu()
+	if only != nil {
+		idx := func(n string) int {
+			for i, m := range names {
+				if m == n {
+					return i
+				}
+			}
+			return 0
+		}
+		if len(only.Signers) != 2 {
+			return
+		}
+		a, b := idx(only.Signers[0]), idx(only.Signers[1])
+		names, calls = []string{names[a], names[b]}, []func(func()) string{calls[a], calls[b]}
+	}
+	l := fw.NewLocal()
+	defer r.Merge(l)
+	pairs, runs, capped := coop.Pairs(len(calls), func(i int, y func()) string { return calls[i](y) }, nil, func(i, j int, sched []int, what string) {
+		r.Violation(fmt.Sprintf("overlap:%s:%s", names[i], names[j]), fmt.Sprintf("%s overlapped with %s, interleaving %v: %s", names[i], names[j], sched, what), caseT{Kind: "overlap", Signers: []string{names[i], names[j]}})
+	}, 20000)
+	if only == nil {
+		r.Bounds["overlapping_calls"] = fmt.Sprintf("%d ordered pairs of Open/Sign calls (%v), every interleaving at Verifiers.Verifier, Verifier.Verify and Signer.Sign callbacks (cap 20000 per pair)", pairs, names)
+	}
+	if capped {
+		r.Cap("overlapping note calls: 20000 interleavings per pair reached")
+	}
+	l.States += int64(pairs)
+	l.Execs += int64(runs)
+	l.Transitions += int64(runs)
+	l.Nontrivial += int64(runs)
+	l.Outcomes["overlap:interleavings"] += int64(runs)
+}
+
 func Replay(r *fw.Run, raw json.RawMessage) {
 	var c caseT
 	if err := json.Unmarshal(raw, &c); err != nil {
 		r.Violation("replay", err.Error(), nil)
+		return
+	}
+	if c.Kind == "overlap" {
+		r.States.Add(1)
+		r.Sample(c)
+		overlapPart(r, &c)
 		return
 	}
 	t, _ := strconv.Unquote(c.Text)
